@@ -529,3 +529,24 @@ package consensus
 //@   ensures [even] len(bvl.Items) > 0 && len(bvl.Items) % 2 == 0 ==> r == (ghost(sorted_arr)[len(bvl.Items) / 2 - 1] + ghost(sorted_arr)[len(bvl.Items) / 2]) / 2
 //@   ensures [sorted_input] len(bvl.Items) > 0 ==> ghost(sorted_n) == len(bvl.Items) && (forall j int :: {bvl.Items[j]} 0 <= j && j < len(bvl.Items) ==> ghost(sorted_in)[j] == bvl.Items[j].Timestamp)
 //@   loop 0: invariant -1 <= rangeindex && rangeindex < len(ts) && len(ts) == len(bvl.Items) && l == len(ts) && off(ts) == 0 && fresh(ts) && (forall j int :: {ts[j]} 0 <= j && j <= rangeindex ==> ts[j] == bvl.Items[j].Timestamp)
+
+// C03: the writer continues in the segment that is the tail of the log on disk: the file it opens
+// and the index it remembers for the next segment switch are both the tail index just read
+//@ property C03
+//@ smt all (declare-ghost wi_tail Int)
+//@ func readWALInfo(id) (wi, err)
+//@   trusted
+//@   pure
+//@   ensures err == nil ==> wi != nil
+//@   opt ghost:wi_tail wi.tailIdx
+//@ func OpenWALForWrite(id, cfg) (r, err)
+//@   arith int
+//@   nosafety
+//@   modifies *
+//@   opt no-callee-pre
+//@   opt inline-none
+//@   opt go-ignore
+//@   opt protect all(walInfo.tailIdx), all(walInfo.headIdx), all(walWriter.tailIdx)
+//@   requires cfg != nil
+//@   callpre fileFor: idx == ghost(wi_tail)
+//@   ensures [tail] err == nil ==> typeof(r) == typeid(ptr_walWriter) && as(ptr_walWriter, r) != nil && as(ptr_walWriter, r).tailIdx == ghost(wi_tail)
